@@ -84,7 +84,8 @@ class Prop:
 
     def filters(self, rng, decoded, zone='normal'):
         pos = [(m.lat, m.lon) for m in decoded if getattr(m, 'lat', None) is not None and getattr(m, 'lon', None) is not None]
-        out = ['A:always', 'A:has:speed', 'A:lt:speed:%d' % rng.choice([5000000, 20000000, 60000000]),
+        out = ['A:truthy:shipname', 'A:truthy:speed', 'A:truthy:status', 'A:truthy:callsign', 'A:truthy:data', 'A:truthy:turn',
+               'A:always', 'A:has:speed', 'A:lt:speed:%d' % rng.choice([5000000, 20000000, 60000000]),
                'A:lt:mmsi:%d' % (500000000 * 1000000), 'N:speed', 'N:lat,lon', 'N:shipname', 'N:speed,course,heading',
                'T:1,2,3', 'T:5,8,14,24', 'T:%s' % ','.join(str(t) for t in rng.sample(range(1, 28), 6)), 'T:-',
                'T:0', 'T:0,2,3,5,18', 'T:%s' % ','.join(str(t) for t in rng.sample(range(0, 64), 12))]
